@@ -62,6 +62,8 @@ func hangCheck(c *core.Ctx, cl *hs.Client, cs any) bool {
 	dump, lib := core.ClassifyHang()
 	if len(lib) > 0 {
 		c.Violate("wedge", "goroutine blocked or spinning inside library: "+strings.Join(lib, "; "), "the serving goroutine neither answered, nor blocked for input, nor closed the connection\n"+trim(dump, 3000), cs)
+	} else if cl.C.Abandoned(dump) {
+		c.Violate("abandoned", "the goroutine that served the connection has ended without closing it: the client waits for ever", "no goroutine is left that reads this connection, and the server side was never closed\n"+trim(replyKinds(cl.C.Out()), 300), cs)
 	} else {
 		c.Inconclusive("watchdog fired without a library-blocked goroutine")
 	}
